@@ -257,6 +257,29 @@ func C07(r *ev.Run) {
 	for k, src := range c07Corpus {
 		inputs = append(inputs, [2]string{fmt.Sprintf("corpus%d", k), src})
 	}
+	// braces where the guard of an if / for statement expects an operand (there the brace starts a block, not a map):
+	// every sequence of up to 5 (6) tokens behind the guard prefixes
+	guardTail := []string{"{", "}", "a", ":", "1"}
+	var tails [][]string
+	var genTail func(prefix []string, n int)
+	genTail = func(prefix []string, n int) {
+		if len(prefix) > 0 {
+			tails = append(tails, prefix)
+		}
+		if len(prefix) == n {
+			return
+		}
+		for _, a := range guardTail {
+			genTail(append(append([]string{}, prefix...), a), n)
+		}
+	}
+	genTail(nil, pick(tier, 5, 6))
+	for _, pre := range []string{"if a ==", "if", "if not", "if a and", "for a in", "for", "for a >", "if a { } elif b +", "for [ a , b ] in", "if (", "if a [", "try { } except a =="} {
+		for _, t := range tails {
+			src := pre + " " + strings.Join(t, " ")
+			inputs = append(inputs, [2]string{"guard:" + src, src})
+		}
+	}
 	nMut := pick(tier, 6000, 80000)
 	for k := 0; k < nMut; k++ {
 		src := c07Corpus[rng.Intn(len(c07Corpus))]
